@@ -185,7 +185,7 @@ func describeD(v ssa.Value, d int) string {
 	case *ssa.MakeSlice:
 		return "make(" + x.Type().String() + ", " + describeD(x.Len, d+1) + ")"
 	case *ssa.MakeMap:
-		return "make(" + x.Type().String() + ")"
+		return "make(" + x.Type().String() + ")#" + x.Name()
 	case *ssa.MakeChan:
 		return "make(" + x.Type().String() + ")"
 	case *ssa.Next:
